@@ -13,13 +13,24 @@
   actions `acquire`/`cancel`, both enabled when `ready` is closed and the context is done).
 -/
 import Hv.Conc.LockLemmas
+import Hv.Conc.LockMapLemmas
 import Hv.Basic.Verdict
 
 namespace Hv.C14
 open Hv.Lock
 
-/-- The full-strength statement, for given code facts. -/
-structure Holds (cfg : Cfg) (gw : GwCfg) : Prop where
+/-- Several keys (model `Hv/Conc/LockMap.lean`, every schedule of `call / getQueue / enqueue /
+    remove / unmap` over any keys): an `Unlock` on one key carrying an id that was issued for
+    ANOTHER key finds nobody in that key's queue — it removes nothing and returns the error. -/
+def ForeignNoop (mcfg : LockMap.Cfg) : Prop :=
+  ∀ as s (id k' i : Nat) (o : LockMap.Obj), LockMap.run mcfg LockMap.init as = some s →
+    (id, k') ∈ s.issued → s.objs[i]? = some o → o.key ≠ k' →
+    id ∉ o.q.callers ∧ o.q.rem LockMap.qcfg id = (o.q, false)
+
+/-- The full-strength statement, for given code facts (`uniqueIds`: caller ids are UUIDs). -/
+structure Holds (cfg : Cfg) (gw : GwCfg) (uniqueIds : Bool := true) : Prop where
+  /-- `foreign_unlock_noop`, with or without map pruning -/
+  foreignNoop : ∀ prune, ForeignNoop { prune := prune, uniqueIds := uniqueIds }
   /-- granted ⊆ {head} and, when the queue is not empty, its head *is* granted: no waiter is
       left blocked once the callers ahead of it are gone -/
   grantedIsHead : ∀ as s, run cfg init as = some s → s.q.ready = s.q.callers.head?.toList
@@ -110,10 +121,25 @@ theorem rem_head (cfg : Cfg) (hg : IsGood cfg) (q : Q) (h : QInv q) (id y : Nat)
     rw [e]; simp [hq'.1, hq'.2]
   · rw [hq] at hq'; simp at hq'; exact absurd hq'.1 hne
 
+/-- ids issued for one key never sit in another key's queue when ids are globally unique -/
+theorem foreign_unlock_noop (prune : Bool) : ForeignNoop { prune := prune, uniqueIds := true } := by
+  intro as s id k' i o h hiss ho hne
+  have both : LockMap.Inv { prune := prune, uniqueIds := true } s ∧ LockMap.IdInv s := by
+    refine LTS.inv_run (LockMap.step { prune := prune, uniqueIds := true })
+      (fun s => LockMap.Inv { prune := prune, uniqueIds := true } s ∧ LockMap.IdInv s) ?_ LockMap.init as s
+      ⟨LockMap.inv_init _, LockMap.idinv_init⟩ h
+    intro s a s' ⟨hi, hu⟩ hs
+    exact ⟨LockMap.inv_step _ s a s' hi hs, LockMap.idinv_step _ rfl s a s' hi hu hs⟩
+  have hnot : id ∉ o.q.callers := by
+    intro hm
+    have := both.2.objIds i o ho id hm
+    exact hne (both.2.func id o.key k' this hiss)
+  exact ⟨hnot, by simp [Q.rem, hnot]⟩
+
 /-- C14 holds for every schedule for the code shape of the unchanged tree. -/
 theorem holds_good (cfg : Cfg) (gw : GwCfg) (hg : IsGood cfg)
-    (hgw : 0 < gw.ttlFloor ∧ 0 ≤ gw.ttlThresh) : Holds cfg gw := by
-  refine ⟨?_, ?_, ?_, ?_, ?_, ?_, ?_, ?_, ?_⟩
+    (hgw : 0 < gw.ttlFloor ∧ 0 ≤ gw.ttlThresh) : Holds cfg gw true := by
+  refine ⟨foreign_unlock_noop, ?_, ?_, ?_, ?_, ?_, ?_, ?_, ?_, ?_⟩
   · intro as s h; exact (reach_inv cfg hg as s h).ready
   · intro as s h
     have hi := reach_inv cfg hg as s h
@@ -202,7 +228,103 @@ where
     · exact hn
     · exact hn
 
+/-! ### Liveness as a safety bound: the callers ahead of a waiter are its variant -/
+
+/-- once in the queue, a caller stays there until its own removal, and nobody overtakes it:
+    every later member of the queue was already there or arrived later (larger id) -/
+theorem queue_only_grows_behind (cfg : Cfg) (s : St) (as : List Act) (s' : St) (h : run cfg s as = some s') :
+    s.next ≤ s'.next ∧ ∀ z ∈ s'.q.callers, z ∈ s.q.callers ∨ s.next < z := by
+  refine LTS.inv_run (step cfg) (fun t => s.next ≤ t.next ∧ ∀ z ∈ t.q.callers, z ∈ s.q.callers ∨ s.next < z) ?_ s as s'
+    ⟨Nat.le_refl _, fun z hz => Or.inl hz⟩ h
+  intro t a t' ⟨hn, hm⟩ hs
+  have sub : ∀ id z, z ∈ (t.q.rem cfg id).1.callers → z ∈ t.q.callers := by
+    intro id z hz; rw [rem_callers_erase] at hz; exact List.mem_of_mem_erase hz
+  cases a <;> simp only [step] at hs <;> split at hs <;> simp at hs <;> subst hs
+  · rename_i id hlt
+    refine ⟨by show s.next ≤ id; omega, ?_⟩
+    intro z hz
+    replace hz : z ∈ (t.q.enq id).callers := hz
+    rw [enq_callers'] at hz
+    rcases List.mem_append.mp hz with hz | hz
+    · exact hm z hz
+    · simp at hz; subst hz; right; omega
+  · exact ⟨hn, hm⟩
+  · exact ⟨hn, fun z hz => hm z (sub _ z hz)⟩
+  · exact ⟨hn, fun z hz => hm z (sub _ z hz)⟩
+  · exact ⟨hn, fun z hz => hm z (sub _ z hz)⟩
+
+/-- `waiter_variant`: a removal (unlock, TTL or cancel) of a caller ahead of `x` brings `x` exactly
+    one place forward, and no step whatsoever puts anybody in front of `x`. -/
+theorem waiter_variant (cfg : Cfg) (s : St) (pre post : List Nat) (x y : Nat) (s' : St)
+    (hq : s.q.callers = pre ++ x :: post) (hy : y ∈ pre)
+    (hs : step cfg s (.unlock y) = some s' ∨ step cfg s (.ttl y) = some s' ∨ step cfg s (.cancel y) = some s') :
+    s'.q.callers = pre.erase y ++ x :: post ∧ (pre.erase y).length + 1 = pre.length := by
+  have key := remove_ahead cfg s.q pre post x y hq hy
+  rcases hs with hs | hs | hs <;> simp only [step] at hs <;> split at hs <;> simp at hs <;> subst hs <;> exact key
+
+/-- `granted_when_ahead_gone`: a waiter with `n` callers ahead of it is granted as soon as those
+    `n` callers have left (by unlock, TTL or cancellation — `n` removals), whatever else happened
+    in between. -/
+theorem granted_when_ahead_gone (cfg : Cfg) (hg : IsGood cfg) (as bs : List Act) (s s' : St)
+    (pre post : List Nat) (x : Nat)
+    (h0 : run cfg init as = some s) (hq : s.q.callers = pre ++ x :: post)
+    (h1 : run cfg s bs = some s') (hx : x ∈ s'.q.callers) (hgone : ∀ y ∈ pre, y ∉ s'.q.callers) :
+    s'.q.callers.head? = some x ∧ x ∈ s'.q.ready := by
+  have hi := reach_inv cfg hg as s h0
+  have hr' : run cfg init (as ++ bs) = some s' := by
+    rw [show run cfg init (as ++ bs) = LTS.run (step cfg) init (as ++ bs) from rfl, LTS.run_append]
+    rw [show LTS.run (step cfg) init as = some s from h0]; exact h1
+  have hi' := reach_inv cfg hg (as ++ bs) s' hr'
+  have hmono := (queue_only_grows_behind cfg s bs s' h1).2
+  -- in `s` the members smaller than `x` are exactly `pre`
+  have hsorted : (pre ++ x :: post).Pairwise (· < ·) := hq ▸ hi.qSorted
+  have hxle : x ≤ s.next := hi.qBound x (by rw [hq]; simp)
+  have hhead : ∀ z ∈ s'.q.callers, x ≤ z := by
+    intro z hz
+    rcases hmono z hz with hin | hnew
+    · rw [hq] at hin
+      rcases List.mem_append.mp hin with hp | hp
+      · exact absurd hz (hgone z hp)
+      · rcases List.mem_cons.mp hp with e | e
+        · omega
+        · have := (List.pairwise_append.mp hsorted).2.1
+          have := (List.pairwise_cons.mp this).1 z e
+          omega
+    · omega
+  cases hc : s'.q.callers with
+  | nil => rw [hc] at hx; simp at hx
+  | cons z t =>
+    have hzx : x ≤ z := hhead z (by rw [hc]; simp)
+    have hs' : (z :: t).Pairwise (· < ·) := hc ▸ hi'.qSorted
+    have : z = x := by
+      rcases List.mem_cons.mp (hc ▸ hx) with e | e
+      · exact e.symm
+      · have := (List.pairwise_cons.mp hs').1 x e; omega
+    subst this
+    refine ⟨rfl, ?_⟩
+    have := hi'.ready
+    unfold QInv at this
+    rw [this, hc]; simp
+
+/-- What the code does with the id of a caller that is still WAITING: `remove` matches by id only,
+    so `Unlock(key, waiterId)` would take that waiter out of the queue (its `Lock` call would then
+    sit on a `ready` channel nobody closes until its own context ends).  The property's "unlock
+    with a stale or foreign ID" does not cover this: a caller's id is created inside `Lock` and
+    returned only once the lock has been acquired, so before that nobody can present it — the
+    model's `unlock` is enabled only for acquired or absent ids (ids are capabilities; with
+    non-random ids, see `refutes_ticketIds`, the assumption fails and the check reports it). -/
+theorem waiter_id_is_a_capability (cfg : Cfg) (q : Q) (h w : Nat) (rest : List Nat) (hq : q.callers = h :: w :: rest)
+    (hne : h ≠ w) : (q.rem cfg w).1.callers = h :: rest := by
+  rw [rem_callers_erase, hq]
+  have : (h == w) = false := by simp [hne]
+  simp [List.erase_cons, this]
+
 def goodCfg : Cfg := { wake := .next, wakeOnlyIfHead := true }
+
+/-- Non-vacuity of the variant: caller 4 has two callers ahead (2 waiting, 1 holding); after those two
+    have left — one by cancellation, one by TTL — and a later arrival, 4 is the granted head. -/
+example : (run goodCfg init [.enqueue 1, .acquire 1, .enqueue 2, .enqueue 4, .cancel 2, .enqueue 5, .ttl 1]).map
+    (fun s => (s.q.callers, s.q.ready)) = some ([4, 5], [4]) := by decide
 def goodGw : GwCfg := { ttlThresh := 1000, ttlFloor := 1000 }
 
 /-- Non-vacuity: three callers, the second is cancelled while waiting, the holder's TTL fires,
@@ -223,7 +345,7 @@ example : (run goodCfg init [.enqueue 1, .acquire 1, .enqueue 2, .unlock 1, .acq
 /-- `close(q.callers[len-1].ready)`: with two waiters the *last* one is granted. -/
 def witnessLast : List Act := [.enqueue 1, .acquire 1, .enqueue 2, .enqueue 3, .unlock 1]
 
-theorem refutes_wakeLast (b : Bool) (gw : GwCfg) : ¬ Holds { wake := .last, wakeOnlyIfHead := b } gw := by
+theorem refutes_wakeLast (b : Bool) (gw : GwCfg) (u : Bool) : ¬ Holds { wake := .last, wakeOnlyIfHead := b } gw u := by
   intro h
   have hr : (run { wake := .last, wakeOnlyIfHead := b } init witnessLast).map
       (fun s => (s.q.ready, s.q.callers)) = some ([3], [2, 3]) := by cases b <;> decide
@@ -237,7 +359,7 @@ theorem refutes_wakeLast (b : Bool) (gw : GwCfg) : ¬ Holds { wake := .last, wak
 /-- no close at all after the head leaves: the next waiter stays blocked. -/
 def witnessNone : List Act := [.enqueue 1, .acquire 1, .enqueue 2, .unlock 1]
 
-theorem refutes_wakeNone (b : Bool) (gw : GwCfg) : ¬ Holds { wake := .none, wakeOnlyIfHead := b } gw := by
+theorem refutes_wakeNone (b : Bool) (gw : GwCfg) (u : Bool) : ¬ Holds { wake := .none, wakeOnlyIfHead := b } gw u := by
   intro h
   have hr : (run { wake := .none, wakeOnlyIfHead := b } init witnessNone).map
       (fun s => (s.q.ready, s.q.callers)) = some ([], [2]) := by cases b <;> decide
@@ -251,7 +373,7 @@ theorem refutes_wakeNone (b : Bool) (gw : GwCfg) : ¬ Holds { wake := .none, wak
 /-- the close is not guarded by `wasHead`: removing a waiter closes the head's channel again. -/
 def witnessDouble : List Act := [.enqueue 1, .enqueue 2, .cancel 2]
 
-theorem refutes_doubleClose (gw : GwCfg) : ¬ Holds { wake := .next, wakeOnlyIfHead := false } gw := by
+theorem refutes_doubleClose (gw : GwCfg) (u : Bool) : ¬ Holds { wake := .next, wakeOnlyIfHead := false } gw u := by
   intro h
   have hr : (run { wake := .next, wakeOnlyIfHead := false } init witnessDouble).map (·.q.panics) = some 1 := by
     decide
@@ -262,11 +384,39 @@ theorem refutes_doubleClose (gw : GwCfg) : ¬ Holds { wake := .next, wakeOnlyIfH
     simp [hs] at hr
     omega
 
-theorem refutes_ttlFloor (cfg : Cfg) (gw : GwCfg) (h0 : gw.ttlFloor ≤ 0) : ¬ Holds cfg gw := by
+theorem refutes_ttlFloor (cfg : Cfg) (gw : GwCfg) (u : Bool) (h0 : gw.ttlFloor ≤ 0) : ¬ Holds cfg gw u := by
   intro h
   have := h.ttlPositive gw.ttlThresh
   simp [effTTL] at this
   omega
+
+/-- Per-queue ticket numbers as lock ids: key 10 and key 11 both hand out id 1; an `Unlock(11, 1)`
+    with the id issued for key 10 finds — and removes — key 11's holder. -/
+def witnessTickets : List LockMap.Act :=
+  [.call 1 10, .getQueue 1 10, .enqueue 1 10 0, .call 1 11, .getQueue 1 11, .enqueue 1 11 1]
+
+theorem refutes_ticketIds (cfg : Cfg) (gw : GwCfg) : ¬ Holds cfg gw false := by
+  intro h
+  have hr : (LockMap.run { prune := false, uniqueIds := false } LockMap.init witnessTickets).map
+      (fun s => (s.issued, s.objs.map (fun o => (o.key, o.q.callers)))) =
+      some ([(1, 10), (1, 11)], [(10, [1]), (11, [1])]) := by decide
+  cases hs : LockMap.run { prune := false, uniqueIds := false } LockMap.init witnessTickets with
+  | none => simp [hs] at hr
+  | some s =>
+    simp [hs] at hr
+    obtain ⟨hiss, hobjs⟩ := hr
+    -- object 1 is key 11's queue and holds caller 1
+    cases hl : s.objs with
+    | nil => simp [hl] at hobjs
+    | cons o0 rest =>
+      cases rest with
+      | nil => simp [hl] at hobjs
+      | cons o1 rest' =>
+        simp [hl] at hobjs
+        have h1 : s.objs[1]? = some o1 := by simp [hl]
+        have := (h.foreignNoop false witnessTickets s 1 10 1 o1 hs (by simp [hiss]) h1 (by rw [hobjs.2.1.1]; decide)).1
+        rw [hobjs.2.1.2] at this
+        simp at this
 
 /-- the gateway's floor as extracted: every TTL at or below the threshold becomes the floor,
     and the effective TTL is never below `min floor (thresh+1)` -/
@@ -300,6 +450,9 @@ structure Facts where
   /-- gateway `Lock` passes `context.WithoutCancel(ctx)` to the locker (a queued RPC is never
       abandoned half-way: the `cancel` action then only arises inside the lock package) -/
   gwWithoutCancel : Tri
+  /-- where caller ids come from: `some true` = `uuid.NewString()` in `Lock` (globally unique),
+      `some false` = a per-queue counter (unique within one key only) -/
+  idSource : Option Bool
   deriving Repr
 
 def structural (f : Facts) : Bool :=
@@ -317,41 +470,46 @@ def classifyCore (w : Wake) (h : Bool) (th fl : Int) : Verdict :=
     else if 0 ≤ th then .holds else .undetermined "gateway TTL threshold is negative"
 
 theorem core_sound (w : Wake) (h : Bool) (th fl : Int) :
-    (classifyCore w h th fl).Sound (Holds ⟨w, h⟩ ⟨th, fl⟩) := by
+    (classifyCore w h th fl).Sound (Holds ⟨w, h⟩ ⟨th, fl⟩ true) := by
   cases w <;> cases h <;> simp only [classifyCore, Verdict.Sound]
-  · exact ⟨refutes_doubleClose _, trivial⟩
+  · exact ⟨refutes_doubleClose _ _, trivial⟩
   · by_cases h0 : fl ≤ 0
-    · simp only [h0, if_true]; exact ⟨refutes_ttlFloor _ _ h0, trivial⟩
+    · simp only [h0, if_true]; exact ⟨refutes_ttlFloor _ _ _ h0, trivial⟩
     · simp only [h0, if_false]
       by_cases h1 : 0 ≤ th
       · simp only [h1, if_true]
         exact holds_good _ _ ⟨rfl, rfl⟩ ⟨by show 0 < fl; omega, h1⟩
       · simp only [h1, if_false]
-  · exact ⟨refutes_wakeLast _ _, trivial⟩
-  · exact ⟨refutes_wakeLast _ _, trivial⟩
-  · exact ⟨refutes_wakeNone _ _, trivial⟩
-  · exact ⟨refutes_wakeNone _ _, trivial⟩
+  · exact ⟨refutes_wakeLast _ _ _, trivial⟩
+  · exact ⟨refutes_wakeLast _ _ _, trivial⟩
+  · exact ⟨refutes_wakeNone _ _ _, trivial⟩
+  · exact ⟨refutes_wakeNone _ _ _, trivial⟩
 
 def triBool : Tri → Option Bool
   | .yes => some true | .no => some false | .unknown => none
 
 def classify (f : Facts) : Verdict :=
   if !structural f then .undetermined "lock.go no longer has the modelled shape (atomicity / remove call sites)" else
-  match f.wake, triBool f.wakeOnlyIfHead, f.ttlThresh, f.ttlFloor with
-  | some w, some h, some th, some fl => classifyCore w h th fl
-  | _, _, _, _ => .undetermined "lock.wake / lock.wakeOnlyIfHead / gateway TTL floor"
+  match f.idSource, f.wake, triBool f.wakeOnlyIfHead, f.ttlThresh, f.ttlFloor with
+  | some false, some _, some _, some _, some _ => .violated ["C14-foreign-id-unlock"]
+  | some true, some w, some h, some th, some fl => classifyCore w h th fl
+  | _, _, _, _, _ => .undetermined "lock.idSource / lock.wake / lock.wakeOnlyIfHead / gateway TTL floor"
 
 def cfgOf (f : Facts) : Cfg :=
   { wake := f.wake.getD .none, wakeOnlyIfHead := (triBool f.wakeOnlyIfHead).getD false }
 def gwOf (f : Facts) : GwCfg := { ttlThresh := f.ttlThresh.getD 0, ttlFloor := f.ttlFloor.getD 0 }
+def uniqueOf (f : Facts) : Bool := f.idSource.getD false
 
-theorem classify_sound (f : Facts) : (classify f).Sound (Holds (cfgOf f) (gwOf f)) := by
+theorem classify_sound (f : Facts) : (classify f).Sound (Holds (cfgOf f) (gwOf f) (uniqueOf f)) := by
   unfold classify
   split
   · simp [Verdict.Sound]
   · split
-    · rename_i w h th fl hw hh ht hf
-      simp only [cfgOf, gwOf, hw, hh, ht, hf, Option.getD]
+    · rename_i hi _ _ _ _
+      simp only [Verdict.Sound, uniqueOf, hi, Option.getD]
+      exact ⟨refutes_ticketIds _ _, trivial⟩
+    · rename_i w h th fl hi hw hh ht hf
+      simp only [cfgOf, gwOf, uniqueOf, hi, hw, hh, ht, hf, Option.getD]
       exact core_sound w h th fl
     · simp [Verdict.Sound]
 
